@@ -21,6 +21,13 @@ def _data(op):
         return [rng.uniform(-1, 1, size=(3, 2)), rng.uniform(0.5, 1.5, size=(2,))]
     if op in ("prod", "cumprod", "var"):
         return [rng.uniform(0.5, 1.5, size=(2, 3))]
+    if op == "gru":
+        T, N, C, D = 2, 1, 2, 2
+        return [rng.uniform(-1, 1, size=sh) for sh in ((T, N, C), (C, D), (D, D), (D,), (C, D), (D, D), (D,), (C, D), (D, D), (D,))]
+    if op in ("softmax", "logsoftmax", "selu", "norm", "std", "getitem_adv", "repeat"):
+        return [rng.uniform(0.5, 1.5, size=(2, 3))]
+    if op in ("arctan2", "margin_ranking"):
+        return [rng.uniform(0.5, 1.5, size=(3,)), rng.uniform(0.5, 1.5, size=(3,)) + 1]
     n = 2 if op == "where" else 3
     return [rng.uniform(0.5, 1.5, size=(3,)) + k for k in range(n)]
 
@@ -61,6 +68,28 @@ def _build(op, ts):
         return mg.cumprod(ts[0], axis=1)
     if op == "var":
         return mg.var(ts[0], axis=0)
+    if op == "gru":
+        return mg.nnet.layers.gru(*ts)
+    if op == "arctan2":
+        return mg.arctan2(ts[0], ts[1])
+    if op == "softmax":
+        return mg.nnet.activations.softmax(ts[0])
+    if op == "logsoftmax":
+        return mg.nnet.activations.logsoftmax(ts[0])
+    if op == "selu":
+        return mg.nnet.activations.selu(ts[0] - 1.0)
+    if op == "norm":
+        return mg.linalg.norm(ts[0], axis=1)
+    if op == "std":
+        return mg.std(ts[0], axis=0)
+    if op == "margin_ranking":
+        return mg.nnet.losses.margin_ranking_loss(ts[0], ts[1], np.array([1, -1, 1]), 0.5)
+    if op == "minimum_chain":
+        return mg.minimum(mg.minimum(ts[0], ts[1] * 0.5), ts[2] * 0.25)
+    if op == "getitem_adv":
+        return ts[0][np.array([0, 1, 1]), np.array([2, 0, 0])]
+    if op == "repeat":
+        return mg.repeat(ts[0], 2, axis=1)
     raise ValueError(op)
 
 
